@@ -1,38 +1,57 @@
 from props import P
 
 CFG = P(
-        harness=["harness/C07.cc"], srcs=["Image.cc", "Strings.cc", "Filesystem.cc", "Process.cc", "Time.cc", "Encoding.cc"],
+        harness=["harness/C07.cc", "harness/C07_r2.cc"], harness_deps=["harness/C07_model.hh", "harness/C07_ops.hh"], srcs=["Image.cc", "Strings.cc", "Filesystem.cc", "Process.cc", "Time.cc", "Encoding.cc"],
         oracle=None,
         flags=[], cxxflags=[], ldflags=[], harness_cxxflags=["-O2"],
         deadline={"quick": 600, "thorough": 3600},
         rule="a rectangle/blit case is non-trivial when a non-empty rectangle is requested (extent > 0 on both axes, or negative = whole source) on non-empty dest and source canvases - "
-             "whether clipping then leaves all, part or nothing of it; pixel-access, line, clipping-invariance, transform and history cases are all non-trivial except transforms of empty canvases",
+             "whether clipping then leaves all, part or nothing of it; pixel-access, line, clipping-invariance, transform, history, call-pair and context cases are all non-trivial except transforms / "
+             "assignments of empty canvases and draw_text of the empty string",
         bounds={
-            "quick": "pixel access: canvases 0..3^2 x alpha x 4 widths x 9^2 coordinates x 6 forms; fill_rect: every canvas 0..4^2, x,y in [-3,n+3], w,h in [-1,n+4], 4 colours; "
-                     "8 blit variants: dest/source sizes {0,1,3}^4 (blit) or {1,3}^4 (others), full product of x,y,sx,sy in [-2,n+2], w,h in [-1,max+2] (rgba->rgba); 10 variants x 4 alpha-mode combinations and "
-                     "wide channels on a reduced grid; +-2^31 substituted into 1 and 2 parameters; clipping invariance of fill_rect/blit/draw_text on canvases {0,1,5,8}^2; every "
-                     "endpoint pair in [-3,n+3]^4 on canvases {0,1,2,3,5}^2 and every axis line; transforms on canvases 0..4^2; all histories of <=2 of 20 operations",
+            "quick": "pixel access: canvases 0..3^2 x alpha x 4 widths x 20^2 coordinates (edge, +-2^31, +-2^32 and their neighbours, 2^32+n-1, +-2^63) x 6 forms; fill_rect: every canvas 0..4^2, x,y in [-3,n+3], "
+                     "w,h in [-1,n+4], 6 colours incl. the uint32 overload, opaque on 16/32/64-bit; 8 blit variants: dest/source sizes {0,1,3}^4 (blit) or {1,3}^4 (others), full product of x,y,sx,sy in [-2,n+2], "
+                     "w,h in [-1,max+2] (rgba->rgba); 13 variants (uint32 keys, source_alpha 0x00/0x40/0xC0/0xFF) x 4 alpha-mode combinations, wide channels and all 12 mixed dest/source widths on a reduced grid; "
+                     "12 extreme values (+-2^31, +-2^32 and neighbours, +-2^61) substituted into 1 and 2 parameters of every blit variant, fill_rect (3 forms), the line functions (3 forms) and draw_text (6 forms); "
+                     "clipping invariance of fill_rect/blit/draw_text on canvases {0,1,5,8}^2; every endpoint pair in [-3,n+3]^4 on canvases {0,1,2,3,5}^2 and every axis line; uint32/default-alpha line overloads "
+                     "on canvases 1..3^2 x alpha x 4 widths with dash up to 2^63-1; draw_text per-pixel model: 3 canvases x alpha x 6 call forms x 3 backgrounds x all strings of <=2 of 9 characters x 24 positions; "
+                     "transforms on canvases 0..4^2; all histories of <=2 of 20 operations; 130 object states: every ordered (destination, source) pair x 6 assignment forms, 8 unary forms; all shape-changing "
+                     "histories of <=3 of 20 operations from 24 start shapes; 92 boundary calls: every ordered pair A;B and triple A;B;A, every call in 3 exception contexts; resize_blit (memory safety, rectangle bound); "
+                     "BitmapImage: pixel access, whole-image operations, write_row, copies between 25 states",
             "thorough": "as quick with: fill_rect on every canvas 0..8^2; blit sizes {0,1,2,3}^4 x {rgba->rgba, rgb->rgb} with 9 mask-size combinations; sizes 4..8 swept one axis at a time; "
-                        "clipping invariance on {0,1,2,5,8,13}^2; lines on every canvas 0..6^2; histories of <=3 operations",
+                        "clipping invariance on {0,1,2,5,8,13}^2; lines on every canvas 0..6^2; line overloads on canvases 1..4^2; text: 6 canvases, 64 positions, all 16 form/background combinations, strings of 3 "
+                        "characters on a reduced grid; histories of <=3 operations; shape histories of <=4 operations; 202 object states (dims 0..4)",
         },
-        explanation="E-ENUM over the real Image methods on exact-size heap buffers under ASan; reference model = per-pixel canvas with a declaratively computed affected set "
-                    "(no incremental clipping code), colour rules transcribed per variant; histories are replayed from a fresh image (state = history) and compared after every step",
+        explanation="E-ENUM over the real Image/BitmapImage methods on exact-size heap buffers under ASan; reference model = per-pixel canvas with a declaratively computed affected set "
+                    "(no incremental clipping code), colour rules transcribed per variant, text layout transcribed from draw_text_v with the library's glyph table; histories are replayed from a fresh image "
+                    "(state = history) and compared after every step; call pairs/triples judge every call on its own fresh object so that only state carried between calls can make them differ",
         assumptions=[
-            "per-pixel colour rules (blend formulas, colour-key and mask tests, alpha skip in blit, dash pattern, invert touching alpha) are the library's own behaviour as written in Image.hh/Image.cc comments and statements; "
-            "what is checked for all arguments is the geometry (which pixels may change), exception behaviour and memory safety",
-            "colour rules are compared for 8-bit channels only; for 16/32/64-bit canvases blits are checked for geometry, exceptions and memory safety (the blend arithmetic is only meaningful for 8-bit)",
-            "don't-care, executed but not judged: source aliasing the destination, negative dash lengths, axis lines given with start > end, the value of alpha written by translucent fills into wide channels, resize_blit (excluded: no law stated, documented to throw)",
+            "per-pixel colour rules (blend formulas, colour-key and mask tests, alpha skip in blit, dash pattern, invert touching alpha, text cell layout 6x8 with a 6x9 background box and a closing column) are the library's own "
+            "behaviour as written in Image.hh/Image.cc comments and statements; what is checked for all arguments is the geometry (which pixels may change), exception behaviour and memory safety",
+            "colour rules are compared for 8-bit channels only; for 16/32/64-bit canvases blits and translucent fills/text backgrounds are checked for geometry, exceptions and memory safety (the blend arithmetic is only meaningful for 8-bit); "
+            "opaque fills, opaque text, lines, pixel access and all transforms are compared exactly at every width",
+            "don't-care, executed but not judged: source aliasing the destination, negative dash lengths, axis lines given with start > end, the value of alpha written by translucent fills into wide channels, "
+            "the width/height values reported by draw_text, operator==/!=, set_channel_width with an invalid width (must throw or return; the image must stay usable), the colours and exceptions of resize_blit "
+            "(no law stated; only memory safety, source untouched and no pixel outside the requested rectangle changed)",
             "mask_blit with a mask image: runtime_error is accepted whenever the mask is smaller than the requested extent or does not cover the copied area; out_of_range is never accepted",
-            "a line that is partly outside the canvas is only bounded from above (it may draw a subset of its ideal segment, including nothing)",
-            "coordinates up to +-2^31 are substituted one and two parameters at a time, not in all six positions simultaneously; larger magnitudes (near 2^63) are not explored",
+            "a line that is partly outside the canvas is only bounded from above (it may draw a subset of its ideal segment, including nothing); what it draws must have the line colour",
+            "a moved-from image (and the target of a self-move-assignment) has an unspecified value; it must describe its own buffer (dims, data size, max_value consistent), be drawable, assignable and destructible",
+            "self-copy-assignment must keep the value (a copy equals its source); this fires on the pinned tree for Image and BitmapImage: proposed_fixes/C07-r2-1.diff, C07-r2-2.diff",
+            "extreme coordinates are substituted one and two parameters at a time, not in all six positions simultaneously; magnitudes above 2^61 (where the library's own sums would overflow) are used only for direct pixel access; "
+            "axis lines that start inside a dash gap longer than 65536 pixels are not executed",
+            "BitmapImage (the monochrome canvas declared in Image.hh) is held to the same clauses: out_of_range outside, invert twice is the identity, copies are deep; padding bits of a row are not compared",
         ],
         engine="E-ENUM + E-BFS",
-        technique="exhaustive enumeration of canvas sizes x all rectangle parameters (full six-parameter product per blit variant) against a declarative per-pixel model, all line endpoint pairs, and all short operation histories replayed on the real Image class",
+        technique="exhaustive enumeration of canvas sizes x all rectangle parameters (full six-parameter product per blit variant) against a declarative per-pixel model, all line endpoint pairs, a per-pixel text model, "
+                  "all ordered pairs of object states for assignment, all short operation histories (including shape-changing ones) and all ordered pairs/triples of boundary calls on the real Image class",
         level_text="For every canvas size in the small scope and every combination of position, extent and source offset in [-2, size+2] (full product, every blit variant, plus fill_rect on "
                    "every canvas up to 8x8), the real operation is executed under ASan on exact-size buffers and the whole pixel buffer is compared with a per-pixel model whose affected set is "
-                   "defined declaratively; pixels outside the clipped rectangle must be bit-identical, no out_of_range may escape, the source must be untouched. Extreme coordinates (+-2^31), "
-                   "clipping invariance (draw on an enlarged canvas and crop), every line endpoint pair on canvases up to 6x6, transform identities, deep copies and all operation histories up to "
-                   "depth 2/3 over a 20-letter alphabet are enumerated completely. Within these bounds the verdict is a coverage statement, not a sample.",
-        level_note="Trusted: the transcription of the per-variant colour rules (library-defined, see assumptions), std::function, libstdc++. Not covered: canvases larger than the stated sizes except through "
-                   "clipping invariance (up to 13x13 plus margins), simultaneous extreme values in more than two parameters, coordinates near 2^63, resize_blit.",
+                   "defined declaratively; pixels outside the clipped rectangle must be bit-identical, no out_of_range may escape, the source must be untouched. Extreme coordinates (+-2^31, +-2^32, +-2^61), "
+                   "clipping invariance (draw on an enlarged canvas and crop), every line endpoint pair on canvases up to 6x6, every overload (uint32 colours, default alpha, width/height out-pointers), text against a "
+                   "per-pixel model, transform identities, assignment between every ordered pair of object states (non-fresh destinations, self-assignment, moved-from objects), all operation histories up to "
+                   "depth 2/3 over a 20-letter alphabet and shape-changing histories up to depth 3/4, and every ordered pair and A;B;A triple of 92 boundary calls (state carried between calls) are enumerated "
+                   "completely. Within these bounds the verdict is a coverage statement, not a sample.",
+        level_note="Trusted: the transcription of the per-variant colour rules and of the text layout (library-defined, see assumptions), the library's glyph table, std::function, libstdc++. Not covered: canvases larger than the "
+                   "stated sizes except through clipping invariance (up to 13x13 plus margins), simultaneous extreme values in more than two parameters, coordinates above 2^61 for rectangle operations, "
+                   "file loading/saving (other properties), the interpolation result of resize_blit.",
     )
